@@ -46,6 +46,7 @@ impl<V: Ord> CmRDT for MaxReg<V> {
     open spec fn cm_inv(&self) -> bool { ord_ok::<V>() }
     open spec fn cm_pre(&self, op: &V) -> bool { true }
     open spec fn cm_post(old_: &Self, op: &V, new_: &Self) -> bool { true }
+    open spec fn cm_vpre(&self, op: &V) -> bool { true }
 
 //@extract fn src/maxreg.rs "CmRDT for MaxReg" validate_op
     fn validate_op(&self, _op: &Self::Op) -> /*@ (r: @*/ Result<(), Self::Validation> /*@ ) @*/
